@@ -133,10 +133,13 @@ def csv_only(kw):
     return {k: v for k, v in (kw or {}).items() if k in ("delimiter", "quotechar", "quoting", "escapechar", "doublequote", "skipinitialspace", "strict", "dialect")}
 
 
-def recorded_run(tf, workdir, hist, op, auto=True, storage_kwargs=None, other_fs=False, mode=None):
+def recorded_run(tf, workdir, hist, op, auto=True, storage_kwargs=None, other_fs=False, mode=None, pre_hook=None, do_op=None):
+    """pre_hook(session): called after the history, before recording starts (e.g. to start an iterator and keep it alive);
+    do_op(session): what is recorded instead of driver.do(op) (e.g. an insert_multiple fed by a generator)"""
     s = Session(tf, workdir, auto, storage_kwargs, other_fs)
     try:
         houts = s.run(hist)
+        held = pre_hook(s) if pre_hook else None          # noqa  (kept referenced until the session ends)
         if mode is not None:
             # close, then open the same file again in the requested access mode
             s.driver.close()
@@ -148,7 +151,13 @@ def recorded_run(tf, workdir, hist, op, auto=True, storage_kwargs=None, other_fs
         before = s.contents()
         lst_before = (listing(s.dbdir), listing(s.tmpdir))
         s.h.arm("record", snap_path=s.path)
-        out = s.driver.do(op)
+        if do_op is not None:
+            try:
+                out = ("nat", do_op(s))
+            except Exception as e:  # noqa
+                out = ("raise", type(e).__name__)
+        else:
+            out = s.driver.do(op)
         s.h.disarm()
         events, snaps = list(s.h.events), list(s.h.snaps)
         after_bytes = read_file(s.path)
